@@ -75,6 +75,13 @@ def header_order(chk, prog, rid, cfg=None):
                f"Headers storage is mutated by {muts} (expected a single push)", cfg=cfg)
 
 
+def _peel_bytes(d):
+    """Strip the value-preserving views between a literal and the bytes appended (`as_bytes`, `as_ref`, `deref`, `borrow`, `as_slice`)."""
+    while isinstance(d, tuple) and d and d[0] == "call" and core.re.search(r"::(as_bytes|as_ref|deref|borrow|as_slice|as_str|into|from)$", d[1]) and len(d[2]) == 1:
+        d = d[2][0]
+    return d
+
+
 def nothing_after_body(chk, prog, rid, cfg=None):
     """In From<Response> for Vec<u8>, no byte is appended to the output after the body."""
     chk.rule(rid, "R-MUSTPASS/R-FLOW: no append to the serialised message after the body bytes")
@@ -99,7 +106,10 @@ def nothing_after_body(chk, prog, rid, cfg=None):
         after = body.reachable(body.succs(b))
         for (b2, t2, d2, fb2) in sites:
             if b2 in after and b2 != b and describe(prog, body, t2["args"][0]) == recv:
+                d2 = _peel_bytes(d2)
                 what = d2[1] if d2 and d2[0] == "lit" else d2
+                if isinstance(what, str):
+                    what = what.encode()        # `"\r\n".as_bytes()` and `b"\r\n"` are the same two bytes
                 if not isinstance(what, (bytes, str)):
                     # a named constant / reference to one: use its bytes when they are known
                     from .. import byteset
